@@ -2,27 +2,13 @@
   Translator phase 4h (app mode): `reverse_bits_u64` (src/util/basic.rs) and the `matrix_reps_index_map` loop of `BatchEncoder::new`
   (src/batch_encoder.rs, a fragment) regenerated into Gen/AppFns.lean = `brev` / `batchIndexMap` of the hand model.  Helper prefix `ga_`.
 -/
-import Heathcliff.Proofs.GenAppConv
+import Heathcliff.Proofs.GenAppBase
+import Heathcliff.Gen.AppBatchFns
 import Heathcliff.Model.Galois
 import Mathlib.Tactic.Ring
 
 namespace HC
 open HC.GenApp
-
-/-- a `for` loop (no `break`) whose body performs the model step as long as an invariant holds -/
-theorem ga_forUp_inv {σ τ : Type} (e : τ → σ) (g : τ → Nat → τ) (Inv : Nat → τ → Prop) (f : Nat → σ → R (Ctl σ)) :
-    ∀ (k lo : Nat) (t : τ), Inv lo t →
-    (∀ j t, lo ≤ j → j < lo + k → Inv j t → f j (e t) = .ok (.next (e (g t j))) ∧ Inv (j+1) (g t j)) →
-    forUp lo k (e t) f = .ok (e ((List.range' lo k).foldl g t)) := by
-  intro k
-  induction k with
-  | zero => intro lo t _ _; simp [forUp, pure, Except.pure]
-  | succ k ih =>
-    intro lo t hI h
-    obtain ⟨h0, hI'⟩ := h lo t (Nat.le_refl _) (by omega) hI
-    rw [List.range'_succ, List.foldl_cons]
-    simp only [forUp, h0]
-    exact ih (lo+1) (g t lo) hI' (fun j t' h1 h2 hj => h j t' (by omega) (by omega) hj)
 
 /-! ### `reverse_bits_u64` -/
 
